@@ -120,9 +120,17 @@ fn is_real(clk: libc::clockid_t) -> bool {
 /// (chronyd with a leap-second table, ntpd, adjtimex) has set it. Time stamps that come from outside
 /// (chronyd's reference time) are UTC, so code that mixes the two is off by this much.
 pub const TAI_OFFSET_NS: i128 = 37 * NS;
+/// CLOCK_REALTIME_COARSE returns the realtime clock as of the last timer tick: up to 4 ms (HZ=250) behind the
+/// precise clock, 3 ms here. The client's interval is stated around the *system clock reading*
+/// (clock_gettime(CLOCK_REALTIME)); code that centres it on the coarse clock is off by the lag. (The coarse
+/// *monotonic* clock is the one the design uses on both sides, consistently; it is served without lag so that
+/// the reference models, which are stated in terms of the readings, stay exact.)
+pub const REALTIME_COARSE_LAG_NS: i128 = 3_000_000;
 fn scale_offset(clk: libc::clockid_t) -> i128 {
     if clk == libc::CLOCK_TAI {
         TAI_OFFSET_NS
+    } else if clk == libc::CLOCK_REALTIME_COARSE {
+        -REALTIME_COARSE_LAG_NS
     } else {
         0
     }
